@@ -25,7 +25,7 @@ def asWordFreq (j : Json) : M (String × Rat) := do
 def opBandsample (j : Json) : M Json := do
   let pop ← (← getArr j "population").toList.mapM asWordFreq
   let cutoff ← parseRat (← getStr j "cutoff")
-  let n ← getNat j "sample_size"
+  let n ← asInt (← j.getObjVal? "sample_size")
   let shuffled := filterCutoff cutoff pop
   match bandsampleShuffled shuffled n with
   | .ok sample =>
